@@ -137,7 +137,7 @@ def make_actrl(kind, nlines, height, idx):
 def w2_case(res, case):
     nl = NL.from_json(case['nl'])
     res.evals += 1
-    key = f'C13/w2/{common.h64(case["nl"]):016x}/s{case["style"]}/{"".join(case["plan"])}/{case["capname"]}/{case["actrl"]}{case["height"]}/T{case["T"]}'
+    key = f'C13/w2{"f" if case.get("strip") else ""}/{common.h64(case["nl"]):016x}/s{case["style"]}/{"".join(case["plan"])}/{case["capname"]}/{case["actrl"]}{case["height"]}/T{case["T"]}'
     b = build(nl, STYLES[case['style']])
     c = b.circuit
     ipos, opos, spos = b.s_pos()
@@ -148,8 +148,12 @@ def w2_case(res, case):
     height = nlines if case['height'] == 'doc' else nlines + 3
     actrl = make_actrl(case['actrl'], nlines, height, case['style'])
 
+    strip = bool(case.get('strip', False))
+    from checks.c08 import root_stems
+    stems = root_stems(c) if strip else {}
+
     def run(caps, with_actrl=True):
-        sim = W.make_sim(c, delays, n, caps=caps, a_ctrl=actrl if with_actrl else None)
+        sim = W.make_sim(c, delays, n, caps=caps, a_ctrl=actrl if with_actrl else None, strip=strip)
         W.assign(sim, ipos + spos, init, tt, fin)
         sim.s_to_c(); sim.c_prop()
         if case['T'] is None: sim.c_to_s()
@@ -160,7 +164,7 @@ def w2_case(res, case):
     T = float(TMAX) if case['T'] is None else case['T']
     for j, pos in enumerate(opos + spos):
         node = (b.out_nodes + b.st_nodes)[j]
-        li = node.ins[0].index
+        li = stems.get(node.ins[0].index, node.ins[0].index)     # with stripped forks the captured line stands for its root stem
         for lane in range(n):
             ini, times, term, ovl = wsim.decode(sim.c, int(sim.c_locs[li]), int(sim.c_caps[li]), lane)
             ei, eeat, elst, efin, ev = summary(ini, times, T)
@@ -176,9 +180,10 @@ def w2_case(res, case):
                 res.count('w2_overflow_flags')
     # accumulated switching activity
     exp_abuf = np.zeros_like(np.asarray(sim.abuf))
+    evaluated = {int(o) for o in np.asarray(sim.ops)[:, 1]}
     for l in c.lines:
         a_idx, wr, wf_ = (int(x) for x in actrl[l.index])
-        if a_idx < 0: continue
+        if a_idx < 0 or l.index not in evaluated: continue
         for lane in range(n):
             ini, times, _, _ = wsim.decode(sim.c, int(sim.c_locs[l.index]), int(sim.c_caps[l.index]), lane)
             r, f = rises_falls(ini, times)
@@ -190,6 +195,7 @@ def w2_case(res, case):
     if exp_abuf.any(): res.count('w2_nonzero_abuf')
     res.sig((case['nl'], case['style'], tuple(case['plan']), case['capname'], case['actrl'], case['T'], got_abuf.tobytes()))
     res.count('w2_cases')
+    if strip: res.count('w2_strip_cases')
 
 
 def run_w2(res, task):
@@ -212,7 +218,7 @@ def run_w2(res, task):
             ak = ACTRL_KINDS[(idx + ci) % len(ACTRL_KINDS)]
             T = Ts[(idx + 2 * ci) % len(Ts)]
             height = 'doc' if (idx + ci) % 2 == 0 else 'plus3'
-            case = {'kind': 'w2', 'nl': nl.to_json(), 'style': si, 'plan': plan, 'caps': caps, 'capname': capname, 'actrl': ak, 'height': height, 'T': T}
+            case = {'kind': 'w2', 'nl': nl.to_json(), 'style': si, 'plan': plan, 'caps': caps, 'capname': capname, 'actrl': ak, 'height': height, 'T': T, 'strip': bool((idx + ci) % 3 == 1)}
             if height == 'doc' and dangling: res.count('w2_doc_height_with_dangling')
             try:
                 w2_case(res, case)
@@ -235,7 +241,7 @@ def replay(case):
 
 
 def finish(agg, tier):
-    need = ['w1_overflows', 'w2_overflow_flags', 'w2_nonzero_abuf', 'w2_cases']
+    need = ['w1_overflows', 'w2_overflow_flags', 'w2_nonzero_abuf', 'w2_cases', 'w2_strip_cases']
     missing = [k for k in need if not agg.counters.get(k)]
     if missing: raise common.HarnessError(f'vacuity guard: {missing} zero')
     return {}
